@@ -1,5 +1,5 @@
 """C17 — DTD data flush returns the last written value to the owner (E2 scripts on several ranks, owner memory read after flush + wait)."""
-import random
+import os, random
 import e2dtd
 
 META = dict(
@@ -32,13 +32,14 @@ def cfg17(rng, ranks):
 
 def run(ctx):
     thorough = ctx.tier == 'thorough'
+    sc = lambda n: max(1, int(round(n * float(os.environ.get('VERIF_E2_SCALE', '1')))))    # scratch trials only
     ctx.rule = RULE
     ctx.assumptions = ['value produced by a writer = what its body stored (gathered after the run)', 'sequential interpreters (C and python) agree on every check point',
                        'only legal scripts (lib/e2dtd.py header): a flushed tile is re-used only after the wait', 'MPI per-pair FIFO delivery']
     rng = random.Random(ctx.seed * 15485863 + 17)
     camp = e2dtd.Campaign(ctx, 'C17', 'asan')
     jobs = []
-    nmp = 150 if thorough else 8
+    nmp = sc(150 if thorough else 8)
     for i in range(nmp):
         for ranks in ((2, 3, 4) if thorough and i % 3 == 0 else (2, 3)):
             s = e2dtd.gen(ctx.seed * 100000 + i * 10 + ranks, world=ranks, profile='c17', ntasks=rng.randint(15, 120 if thorough else 50), rounds=1,
@@ -48,7 +49,7 @@ def run(ctx):
         s = e2dtd.gen(ctx.seed * 100000 + 7004, world=4, profile='c17', ntasks=30, rounds=1, read_pct=0, max_np=2)
         jobs.append(dict(script=s, cfg=dict(ranks=4, cores=1, sched='lfq'), kind='mp'))
     # several flush/wait rounds (a second round after more insertions is compared again): single rank
-    for i in range(40 if thorough else 4):
+    for i in range(sc(40 if thorough else 4)):
         s = e2dtd.gen(ctx.seed * 100000 + 30000 + i, world=1, profile='c17', ntasks=rng.randint(30, 150), rounds=rng.choice([2, 3, 4]), new_tiles=rng.choice([0, 1, 2]))
         jobs.append(dict(script=s, cfg=cfg17(rng, 1), kind='rounds'))
     # low-weight probes of recorded findings: second round after a wait on two ranks; reader chains on three ranks
